@@ -1,5 +1,5 @@
-CONSTANT Proto <- EnvProto
-CONSTANT Dirs <- EnvDirs
+CONSTANT Protos <- EnvProtos
+CONSTANT DirSets <- EnvDirSets
 CONSTANT Docs <- D2
 CONSTANT MaxEdits = 8
 CONSTANT MaxStops = 2
